@@ -37,6 +37,9 @@ def run(rep, tier):
     from . import c05
     c05.winding_table(rep, F, rule="R4.7")
     c05.least_index_table(rep, F, rule="R4.7")
+    # every exact predicate this property rests on is a sign of the orientation kernel (rules shared with C03)
+    from . import c03 as _c03
+    _c03.kernel_rules(rep, F, "R4.8")
 
 
 def optype(rep, F):
